@@ -10,7 +10,8 @@ From Coq Require Import List ZArith NArith Bool Arith String.
 Import ListNotations.
 From DD Require Import Base.PyStr Base.Value Path.PathModel Diff.Tree Diff.DiffModel Diff.DiffShow
   Diff.DiffFaithful Delta.DeltaModel Delta.DeltaGuard Delta.DeltaRun Delta.DeltaGood Delta.DeltaChain Delta.DeltaVerify Delta.DeltaVerifyDiff Delta.DeltaVerifyIndep Delta.DeltaVerifyEx
-  Delta.DeltaReverse Delta.DeltaReverseDiff Delta.DeltaReverseInplace Delta.DeltaReverseDiffInplace Delta.DeltaReverseTuple Delta.DeltaReverseSeq Delta.DeltaReverseC01.
+  Delta.DeltaReverse Delta.DeltaReverseDiff Delta.DeltaReverseInplace Delta.DeltaReverseDiffInplace Delta.DeltaReverseTuple Delta.DeltaReverseSeq Delta.DeltaReverseC01
+  Delta.DeltaReverseKinds Delta.DeltaReverseSym Delta.DeltaReverseZip.
 
 (* ================================================================== *)
 (* 1. a non-bidirectional delta refuses subtraction                    *)
@@ -208,18 +209,6 @@ Theorem C08_detects_typed_corruption_refuted :
     apply ex_conv ex_ro ex_ao ex_d ex_base_alias = (ex_t2, 0).
 Proof. exact ex_typed_corruption_accepted. Qed.
 Print Assumptions C08_detects_typed_corruption_refuted.
-
-(* NOT part of the property (its quantifier names values_changed / type_changes
-   locations only), recorded because the clause "never silently accepted" does
-   not extend to iterable_item_removed: [1,2,3] -> [1,2] applied to [1,2,9]
-   returns [1,2,9] without any error (implementation: same, raise_errors=True) *)
-Theorem C08_detection_does_not_extend_to_removed_items :
-  d_irem ex3_d = [([PKey (AInt 2)], I 3)] /\
-  resolve ex3_base [PKey (AInt 2)] = Some (I 9) /\ py_eqv (I 3) (I 9) = false /\
-  apply ex_conv ex_ro ex_ao ex3_d ex3_t1 = (ex3_t2, 0) /\
-  apply ex_conv ex_ro ex_ao ex3_d ex3_base = (ex3_base, 0).
-Proof. exact ex3_removed_item_mismatch_accepted. Qed.
-Print Assumptions C08_detection_does_not_extend_to_removed_items.
 
 (* the guards are satisfiable: a three-entry delta of a nested diff, its
    corrupted bases (value, type, missing key) *)
@@ -514,3 +503,77 @@ Proof.
   repeat split; assumption.
 Qed.
 Print Assumptions C08_add_then_sub_of_diff_data_guards_instance.
+
+(* ================================================================== *)
+(* 8. t2 - delta = t1 for ALL payload categories, positional mode      *)
+(* ================================================================== *)
+(* the ordered diff is symmetric in positional mode: the tree of DeepDiff(t2,t1)
+   is, kind by kind and up to the diff text ([keq]), the mirrored tree of
+   DeepDiff(t1,t2) - for values without ==-aliased atoms, with all dict keys
+   visible, whose paired dicts list their common keys in the same order ([sg]) *)
+Theorem C08_diff_symmetric_positional :
+  forall hatom udiff ops c, zip c = true ->
+  forall t1 t2 p, sg c t1 t2 ->
+    keq (fst (diff hatom udiff ops DeltaReverseSym.nos DeltaReverseSym.nos c t2 t1 p p))
+        (map mirror_entry (fst (diff hatom udiff ops DeltaReverseSym.nos DeltaReverseSym.nos c t1 t2 p p))).
+Proof. intros hatom udiff ops c Z t1. exact (diff_sym hatom udiff ops c Z t1). Qed.
+Print Assumptions C08_diff_symmetric_positional.
+
+(* to_delta reads the tree only through the per-kind sub-lists, never the diff text *)
+Theorem C08_delta_of_kindwise_equal_trees :
+  forall conv bidir always ops T1 T2 es es' rec,
+    keq es es' -> to_delta conv bidir always ops T1 T2 es rec = to_delta conv bidir always ops T1 T2 es' rec.
+Proof. exact to_delta_keq. Qed.
+Print Assumptions C08_delta_of_kindwise_equal_trees.
+
+(* hence, with C01 at the reverse pair: value / type changes, dictionary items,
+   iterable items, set items, any nesting.  Guards: C01's [guards] for (t2,t1)
+   (wf, no ==-aliased atoms, tuples of atoms of equal length, visible keys) and its
+   oracle conditions; [korder t1 t2]; no negative int dict keys; threshold <= 1.
+   The result is t1 up to dict insertion order / set order ([veqb]). *)
+Theorem C08_sub_inverts_positional :
+  forall hatom udiff ops c conv always,
+    zip c = true -> thr_num c <= thr_den c ->
+    (forall a b, hatom a = hatom b -> a = b) ->
+    (forall ty0 v v', conv ty0 v = Some v' -> type_of v' = ty0) ->
+  forall ro ao, ro_ok ro -> ao_ok ao ->
+    (forall p xs ys, forallb is_atom xs = true -> forallb is_atom ys = true -> valid_ops xs ys (ops p xs ys)) ->
+  forall t1 t2,
+    guards c conv true always t2 t1 -> korder t1 t2 ->
+    keys_nonneg t1 = true -> keys_nonneg t2 = true ->
+    let r := run_diff hatom udiff ops DeltaReverseSym.nos DeltaReverseSym.nos c t1 t2 in
+    let d := to_delta conv true always ops t1 t2 (fst r) (snd r) in
+    exists t1', sub conv ro ao d t2 = Some (t1', 0) /\ veqb t1' t1 = true.
+Proof. exact zip_sub_inverts. Qed.
+Print Assumptions C08_sub_inverts_positional.
+
+Theorem C08_add_and_sub_positional :
+  forall hatom udiff ops c conv always,
+    zip c = true -> thr_num c <= thr_den c ->
+    (forall a b, hatom a = hatom b -> a = b) ->
+    (forall ty0 v v', conv ty0 v = Some v' -> type_of v' = ty0) ->
+  forall ro ao, ro_ok ro -> ao_ok ao ->
+    (forall p xs ys, forallb is_atom xs = true -> forallb is_atom ys = true -> valid_ops xs ys (ops p xs ys)) ->
+  forall t1 t2,
+    guards c conv true always t2 t1 -> korder t1 t2 ->
+    keys_nonneg t1 = true -> keys_nonneg t2 = true ->
+    guards c conv true always t1 t2 ->
+    let r := run_diff hatom udiff ops DeltaReverseSym.nos DeltaReverseSym.nos c t1 t2 in
+    let d := to_delta conv true always ops t1 t2 (fst r) (snd r) in
+    (exists t2', apply conv ro ao d t1 = (t2', 0) /\ veqb t2' t2 = true) /\
+    (exists t1', sub conv ro ao d t2 = Some (t1', 0) /\ veqb t1' t1 = true).
+Proof. exact zip_add_and_sub. Qed.
+Print Assumptions C08_add_and_sub_positional.
+
+(* the guards on the data hold together for a pair with a changed set, a grown
+   list, a removed key and a type change *)
+Theorem C08_sub_inverts_positional_data_guards_instance :
+  zip ex_cfg = true /\ guardsb ex_cfg true false ex2_t2 ex2_t1 = true /\ guardsb ex_cfg true false ex2_t1 ex2_t2 = true /\
+  korder ex2_t1 ex2_t2 /\ keys_nonneg ex2_t1 = true /\ keys_nonneg ex2_t2 = true /\
+  d_sadd ex2_d <> [] /\ d_iadd ex2_d <> [] /\ d_drem ex2_d <> [] /\ d_type ex2_d <> [].
+Proof.
+  split; [reflexivity|]. split; [vm_compute; reflexivity|]. split; [vm_compute; reflexivity|].
+  split; [cbn; repeat split|]. split; [reflexivity|]. split; [reflexivity|].
+  repeat split; vm_compute; discriminate.
+Qed.
+Print Assumptions C08_sub_inverts_positional_data_guards_instance.
